@@ -103,9 +103,10 @@ def handleESDQ (args impl : List String) : Option (String × String) :=
 def handle (cmd : String) (args impl : List String) : Option (String × String) :=
   if cmd = "c09.es" then handleES args impl else
   if cmd = "c09.esdq" then handleESDQ args impl else
-  if cmd ≠ "c09.trace" then none else
+  if cmd ≠ "c09.trace" ∧ cmd ≠ "c09.overlap" then none else
   match args with
-  | w :: cnt :: byt :: rt :: _ret :: dqm :: dqw :: dqc :: _ => do
+  | w :: cnt :: byt :: rt :: ret :: dqm :: dqw :: dqc :: _ => do
+    let retentionMs ← nat? ret
     let workers ← nat? w
     let maxCount ← nat? cnt
     let maxBytes ← nat? byt
@@ -120,7 +121,8 @@ def handle (cmd : String) (args impl : List String) : Option (String × String) 
     | none => pure ("bad-trace", "bad-impl")
     | some tks =>
       let m := renderReplayC (replayAll mc dc rc { main := { st := init mc }, dq := { st := init dc } } tks 0 [])
-      let conf : SpecC09.Conf := { mainCount := maxCount, mainBytes := maxBytes, dqCount := dqcount, attemptNum := retry, dq := dqmode != 0 }
+      let conf : SpecC09.Conf := { mainCount := maxCount, mainBytes := maxBytes, dqCount := dqcount, attemptNum := retry, dq := dqmode != 0,
+                                      minRetNs := retentionMs * 1000000, mult := 2 }
       let p := if SpecC09.holds conf tks then "ok" else "fail"
       pure (m, p)
   | _ => none
